@@ -1041,3 +1041,73 @@ func isIdentityFn(fn *ssa.Function) bool {
 	identityMemo[fn] = v
 	return v
 }
+
+// ---------------------------------------------------------------- call scopes
+
+// callScope: a function together with the same-package functions it (transitively)
+// calls statically and its closures; used by rules that must keep working when
+// a part of the function is extracted into a helper.
+type callScope struct {
+	fns   []*ssa.Function
+	sites map[*ssa.Function][]scopeSite
+}
+
+type scopeSite struct {
+	caller *ssa.Function
+	call   *ssa.Call
+}
+
+func buildCallScope(root *ssa.Function) *callScope {
+	sc := &callScope{sites: map[*ssa.Function][]scopeSite{}}
+	if root == nil {
+		return sc
+	}
+	seen := map[*ssa.Function]bool{}
+	pkg := origin(root).Pkg
+	var add func(fn *ssa.Function)
+	add = func(fn *ssa.Function) {
+		if fn == nil || fn.Blocks == nil || seen[fn] || len(sc.fns) > 64 {
+			return
+		}
+		seen[fn] = true
+		sc.fns = append(sc.fns, fn)
+		for _, a := range fn.AnonFuncs {
+			add(a)
+		}
+		allInstrs(fn, func(in ssa.Instruction) {
+			call, ok := in.(*ssa.Call)
+			if !ok {
+				return
+			}
+			cal := origin(staticCallee(&call.Call))
+			if cal == nil || cal.Blocks == nil || cal.Pkg == nil || cal.Pkg != pkg {
+				return
+			}
+			sc.sites[cal] = append(sc.sites[cal], scopeSite{fn, call})
+			add(cal)
+		})
+	}
+	add(root)
+	return sc
+}
+
+// paramArgs: the argument values passed for parameter p at the call sites inside the scope.
+func (sc *callScope) paramArgs(p *ssa.Parameter) []ssa.Value {
+	fn := p.Parent()
+	idx := -1
+	for i, q := range fn.Params {
+		if q == p {
+			idx = i
+		}
+	}
+	var out []ssa.Value
+	for _, s := range sc.sites[origin(fn)] {
+		if idx >= 0 && idx < len(s.call.Call.Args) {
+			out = append(out, s.call.Call.Args[idx])
+		}
+	}
+	return out
+}
+
+// sitesOf: the call sites of fn inside the scope.
+func (sc *callScope) sitesOf(fn *ssa.Function) []scopeSite { return sc.sites[origin(fn)] }
